@@ -2,9 +2,17 @@
 // Woven as a child module of `writer` so that the private fields of `ShmWriter` are reachable.
 // Obligation names (`C11.write.*`, ...) are the assertion messages.
 use super::*;
+// (explicit imports: the harness must not depend on which names writer.rs happens to import)
+use crate::reader::ShmReader;
 use crate::shm_header::{ShmHeader, SHM_MAGIC};
-use crate::{ClockErrorBound, ClockStatus};
+use crate::{ClockErrorBound, ClockStatus, ShmError};
+use std::ffi::{c_void, CStr, CString};
+use std::io::{Error, ErrorKind};
+use std::mem::size_of;
+use std::path::Path;
+use std::sync::atomic;
 use std::sync::atomic::Ordering;
+use std::{fs, ptr};
 
 #[repr(C)]
 pub(crate) struct Seg {
